@@ -26,13 +26,16 @@ Put(i, r) == [x \in DOMAIN inst \cup {i} |-> IF x = i THEN r ELSE inst[x]]
 TInit == inst = [x \in {} |-> None] /\ kfs = {} /\ l = 1
 
 \* ---- follower controller (follower_controller.go)
-FCreated(e) == inst' = Put(e.i, [kind |-> "F", term |-> e.term, status |-> e.status, lastapp |-> e.lastapp, commit |-> e.commit])
+\* snap: a snapshot was installed and nothing has been appended since: the WAL is physically empty and the
+\* head is reported as (-1,-1) although lastAppendedOffset is the snapshot's commit offset
+FCreated(e) == inst' = Put(e.i, [kind |-> "F", term |-> e.term, status |-> e.status, lastapp |-> e.lastapp, commit |-> e.commit, snap |-> FALSE])
 
 FNewTerm(e) == LET s == Get(e.i) IN
     /\ s.kind = "F"
     /\ e.ok = (e.req >= s.term)                                   \* total handler: refused iff the term is older
     /\ IF e.ok THEN /\ e.term = e.req
-                    /\ e.ho = s.lastapp /\ e.lastapp = s.lastapp     \* C04: the reported head is the end of the log
+                    /\ e.lastapp = s.lastapp
+                    /\ e.ho = IF s.snap THEN -1 ELSE s.lastapp       \* C04: the reported head is the end of the log
                     /\ inst' = Put(e.i, [s EXCEPT !.term = e.req, !.status = "FENCED"])
                ELSE e.term = s.term /\ inst' = inst
 
@@ -49,7 +52,7 @@ FAppend(e) == LET s == Get(e.i) IN
     /\ (e.out = "badterm") = (e.mterm # s.term)                      \* C04: nothing of another term is accepted
     /\ (e.out = "dup") = (e.mterm = s.term /\ e.off <= s.lastapp)
     /\ (e.out = "appended") => (e.mterm = s.term /\ e.off = s.lastapp + 1)
-    /\ inst' = IF e.out = "appended" THEN Put(e.i, [s EXCEPT !.status = "FOLLOWER", !.lastapp = e.off])
+    /\ inst' = IF e.out = "appended" THEN Put(e.i, [s EXCEPT !.status = "FOLLOWER", !.lastapp = e.off, !.snap = FALSE])
                ELSE IF e.out = "dup" THEN Put(e.i, [s EXCEPT !.status = "FOLLOWER"]) ELSE inst
 
 \* acks of a sync round: only what is synced (C03)
@@ -63,7 +66,7 @@ FApply(e) == LET s == Get(e.i) IN
 
 FSnapshot(e) == LET s == Get(e.i) IN
     /\ s.kind = "F"
-    /\ inst' = Put(e.i, [s EXCEPT !.commit = e.commit, !.lastapp = e.commit, !.term = e.term])
+    /\ inst' = Put(e.i, [s EXCEPT !.commit = e.commit, !.lastapp = e.commit, !.term = e.term, !.snap = TRUE])
 
 \* ---- leader controller (leader_controller.go)
 LCreated(e) == inst' = Put(e.i, [kind |-> "L", term |-> e.term, status |-> e.status, alloc |-> -1, synced |-> -1, apply |-> -1])
